@@ -788,7 +788,7 @@ func (h *c44Env) waitFor(what string, cond func() bool) bool {
 			}
 		}
 		if time.Since(lastProgress) > c44Watchdog || time.Since(start) > c44WatchdogTotal {
-			h.inconclusive(fmt.Sprintf("watchdog: %s not reached, no event for %v (events %d, compile loop %s, req %d/%d/%d wakes %d)", what, time.Since(lastProgress).Round(time.Second), h.m.n, h.m.clLast, h.m.reqEnter, h.m.reqSent, h.m.reqCoal, h.m.clWake))
+			h.inconclusive(fmt.Sprintf("watchdog: %s not reached, no event for %v (events %d, compile loop %s, req %d/%d/%d wakes %d)", what, time.Since(lastProgress).Round(time.Second), h.m.n, h.m.clLast, h.m.reqEnter, h.m.reqSent, h.m.reqCoal, h.m.clWake)+"\nlast events:\n"+h.tailEvents(15)+"d2 log tail:\n"+h.tailLog(6))
 			return false
 		}
 		time.Sleep(2 * time.Millisecond)
